@@ -179,7 +179,16 @@ def run_check(mod, tier, seed, jobs=None):
     known = load_known(pid)
     known_keys = {canon(k["culprit"]): k for k in known}
     groups = {}
+    # minimisation can be expensive (history replays, forked executions): when no finding is recorded for this
+    # property every violation is new anyway, so only the first ones of each kind are minimised
+    budget = None if known else int(os.environ.get("VERIF_MINIMISE", "12"))
+    per_kind = Counter()
     for v in total.violations:
+        per_kind[v["kind"]] += 1
+        if budget is not None and per_kind[v["kind"]] > budget:
+            c = {"kind": v["kind"], "unminimised": True, "note": "further raw violations of this kind"}
+            groups.setdefault(canon(c), (c, v))
+            continue
         try:
             c = mod.culprit(v)
         except Exception:
